@@ -561,7 +561,9 @@ func showInJS(env *env, out io.Writer, value any) error {
 			if err != nil {
 				return err
 			}
-			if field := t.Field(i); field.PkgPath == "" {
+			// Unexported fields of struct types declared in Scriggo code have
+			// an empty PkgPath and a name prefixed with the character U+1D5FD.
+			if field := t.Field(i); field.PkgPath == "" && !strings.HasPrefix(field.Name, "\U0001d5fd") {
 				name := field.Name
 				value := v.Field(i)
 				if tag := field.Tag.Get("json"); tag != "" {
@@ -765,7 +767,9 @@ func showInJSON(env *env, out io.Writer, value any) error {
 			if err != nil {
 				return err
 			}
-			if field := t.Field(i); field.PkgPath == "" {
+			// Unexported fields of struct types declared in Scriggo code have
+			// an empty PkgPath and a name prefixed with the character U+1D5FD.
+			if field := t.Field(i); field.PkgPath == "" && !strings.HasPrefix(field.Name, "\U0001d5fd") {
 				name := field.Name
 				value := v.Field(i)
 				if tag := field.Tag.Get("json"); tag != "" {
